@@ -497,12 +497,66 @@ static void s_once(const plan_t *p)
     g_run.nontrivial = maxreach >= 2;
 }
 
+/* one string of more than 2^31 characters (real memory: ~2-4 GiB; thorough tier only): positions and counts beyond
+ * INT_MAX must come back untruncated from size, find_ch, find_str, substr, erase */
+static void giant_string(const plan_t *p)
+{
+    struct simheap_cfg hc = { RP_INPLACE_FIT, (uint64_t)1 << 34, 0 };
+    static cstl_string_t gs, sub; static ssize_t pos; static size_t sz; static const char *d;
+    size_t n = ((size_t)1 << 31) + 8 + (size_t)(p->cfg[CF_MAXLEN] % 64), mark = n - 3;
+    char *w;
+    hc.junk = (unsigned char)p->cfg[CF_JUNK];
+    simheap_reset(&hc, p->cfg[CF_JUNK]);
+    sim_watchdog(200);
+    g_cur_prop = "C10"; g_cur_ctx = "giant-string"; g_run.step = 0; g_run.opkind = S_FIND_CH; g_run.steps++;
+    memset(&gs, (int)p->cfg[CF_JUNK], sizeof gs); memset(&sub, (int)p->cfg[CF_JUNK], sizeof sub);
+    cstl_string_init(&gs); cstl_string_init(&sub);
+    TRY(cstl_string_resize(&gs, n));
+    if (g_aborted) { if (g_hs.enomem_in_op) { EVT("skip", 0, 0, 0); return; } sim_violation("C10/abort/resize/giant-string", "resize to 2^31+%zu characters aborted although the allocator agreed", n - ((size_t)1 << 31)); }
+    TRY(sz = cstl_string_size(&gs));
+    if (sz != n) sim_violation("C10/size/resize/giant-string", "size() is %zu after resize(%zu)", sz, n);
+    TRY(w = cstl_string_data(&gs));
+    if (w[n] != 0) sim_violation("C10/terminator/resize/giant-string", "no terminator after %zu characters", n);
+    memset(w, 'a', n); w[mark] = 'b'; w[mark + 1] = 'c';
+    TRY(pos = cstl_string_find_ch(&gs, 'b', 0));
+    if (pos != (ssize_t)mark) sim_violation("C10/find_ch/find_ch/giant-string", "find_ch reports %zd for a character at position %zu (2^31+%zu)", pos, mark, mark - ((size_t)1 << 31));
+    TRY(pos = cstl_string_find_str(&gs, "bc", 0));
+    if (pos != (ssize_t)mark) sim_violation("C10/find_str/find_str/giant-string", "find_str reports %zd for a match at position %zu (2^31+%zu)", pos, mark, mark - ((size_t)1 << 31));
+    TRY(pos = cstl_string_find_ch(&gs, 'b', mark));
+    if (pos != (ssize_t)mark) sim_violation("C10/find_ch/find_ch/giant-string", "find_ch from position %zu reports %zd", mark, pos);
+    TRY(pos = cstl_string_find_ch(&gs, 'b', mark + 1));
+    if (pos != -1) sim_violation("C10/find_ch/find_ch/giant-string", "find_ch beyond the only match reports %zd", pos);
+    g_run.opkind = S_SUBSTR;
+    TRY(cstl_string_substr(&gs, mark, 5, &sub));
+    TRY(d = cstl_string_str(&sub));
+    if (g_aborted || strcmp(d, "bca") != 0) sim_violation("C10/content/substr/giant-string", "substr(2^31+%zu, 5) of the giant string is not its last three characters", mark - ((size_t)1 << 31));
+    g_run.opkind = S_ERASE;
+    TRY(cstl_string_erase(&gs, 1, mark - 1));
+    TRY(sz = cstl_string_size(&gs));
+    TRY(d = cstl_string_str(&gs));
+    if (g_aborted || sz != 4 || strcmp(d, "abca") != 0) sim_violation("C10/content/erase/giant-string", "erase(1, 2^31+..) of the giant string leaves %zu characters, expected \"abca\"", sz);
+    TRY(cstl_string_clear(&gs)); TRY(cstl_string_clear(&sub));
+    if (simheap_live_count(TAG_LIB) != 0) sim_violation("C10/leak/clear/giant-string", "storage still held after clear");
+    simheap_audit("C10", "giant-string");
+    PROBE("giant_string_above_2^31");
+    EVT("giant", n, mark, 0);
+    g_run.nontrivial = 1;
+}
+
 static void s_exec(const plan_t *p)
 {
+    if (p->mode == 110) { giant_string(p); return; }
     if (p->mode == 16) faultenum(p, s_once); else s_once(p);
 }
 
+static void s_gen_main(prng_t *r, int mode, plan_t *p);
 static void s_gen(prng_t *r, int mode, plan_t *p)
+{
+    if (mode == 110) { p->cfg[CF_JUNK] = 1 + prng_below(r, 254); p->cfg[CF_MAXLEN] = prng_below(r, 64); p->cfg[CF_NS] = 1; return; }
+    s_gen_main(r, mode, p);
+}
+
+static void s_gen_main(prng_t *r, int mode, plan_t *p)
 {
     int huge = mode == 10 && prng_chance(r, 1, 300);
     int longrun = !huge && mode != 16 && prng_chance(r, 1, 12), small = !longrun && !huge && prng_chance(r, 1, 5);
